@@ -83,6 +83,11 @@ def main():
             good = dnslib.build_reply(q, answers=ans)
             if pl.kind == "silent":
                 return [("drop",)]
+            if pl.kind == "exact" and proto == "tcp":
+                # a reply whose framed length (2 + message) is exactly pl.big octets, in one piece, with nothing else on the wire
+                base_len = len(dnslib.build_reply(q, answers=ans + [(qn, 65280, 60, b"")]))
+                fill = pl.big - 2 - base_len
+                return [("reply", dnslib.build_reply(q, answers=ans + [(qn, 65280, 60, bytes([case % 251]) * max(fill, 0))]), 0)]
             if pl.kind == "late":
                 # only the FIRST transmission is ever answered, and late: after the server has retransmitted
                 return [("reply", good, pl.delay)] if nth == 0 else [("drop",)]
@@ -201,6 +206,12 @@ def main():
         def tcp_late_then_trickle():
             # (a) an upstream TCP reply that takes 12 s: the client must get exactly one response (the answer, or SERVFAIL if the
             # server gives up first), and whatever happened, the upstream TCP path must still work afterwards
+            # (0) lone upstream TCP replies whose framed size is a multiple of the 4096-octet read buffer (and one off either way)
+            for size in ([4095, 4096, 4097, 8192, 12288] if thorough else [4096, 8192]):
+                c = new_case("exact", big=size)
+                plans[c].variant = "tcp-reply-of-exactly-%d-framed-octets" % size
+                one_tcp(c, "second", 20.0)
+                time.sleep(0.3)
             c = new_case("late", delay=12.0)
             plans[c].variant = "tcp-late"
             one_tcp(c, "second", 60.0)
